@@ -146,7 +146,7 @@ pub struct SViolation {
 impl SViolation {
     pub fn class(&self) -> String {
         let kind = self.op.split(' ').next().unwrap_or("");
-        format!("{}|{}", self.invariant, kind)
+        format!("{}|{}", self.invariant, kind).replace(' ', "_")
     }
     pub fn to_json(&self) -> J {
         J::obj()
